@@ -391,29 +391,58 @@ def band_case(ctx, rng, idx):
 
 def simulation_case(ctx, rng, idx):
     n = int(rng.integers(1, 30))
-    df = pd.DataFrame({'Time': np.sort(rng.uniform(0, 9, n)),
+    # (frames as users assemble them: one simulation in time order, several
+    # simulations concatenated so the times restart, evaluation at unordered
+    # measurement times, descending times, a missing time in the middle)
+    order = ['sorted', 'concatenated', 'shuffled', 'descending',
+             'nan_inside'][int(rng.integers(5))]
+    times = np.sort(rng.uniform(0, 9, n))
+    if order == 'concatenated':
+        k = int(rng.integers(0, n + 1))
+        times = np.concatenate([np.sort(times[:k]), np.sort(
+            rng.uniform(0, 9, n - k))])
+    elif order == 'shuffled':
+        times = rng.permutation(times)
+    elif order == 'descending':
+        times = times[::-1].copy()
+    elif order == 'nan_inside' and n >= 3:
+        times[int(rng.integers(1, n - 1))] = np.nan
+    df = pd.DataFrame({'Time': times,
                        'Value': rng.uniform(0, 5, n),
                        'x': rng.uniform(0, 1, n)})
+    if rng.random() < 0.3:
+        df.index = rng.permutation(n) + 5
     keys = ('Time', 'Value')
     if idx % 2:
         df = df.rename(columns={'Time': 't', 'Value': 'x2'})
         keys = ('t', 'x2')
-    ctx.case(('simulation', idx % 2, min(n, 4)), n >= 2,
-             sample={'n': n})
+    ctx.case(('simulation', idx % 2, min(n, 4), order), n >= 2,
+             sample={'n': n, 'order': order})
     fig = chi.plots.PDTimeSeriesPlot()
     before = digest(df)
+    held = df.copy(deep=True)
     fig.add_simulation(df, time_key=keys[0], value_key=keys[1])
     ctx.count('frames_digested')
     t = fig._fig.data[-1]
     ctx.count('traces_compared')
-    if digest(df) != before:
+    if digest(df) != before or not df.equals(held):
         ctx.violation('caller_frame_unchanged', 'frame_mutated:simulation',
-                      {}, {})
-    if t.mode != 'lines' or not np.array_equal(
-            np.asarray(t.x, dtype=float), df[keys[0]].to_numpy()) or \
-            not np.array_equal(np.asarray(t.y, dtype=float),
-                               df[keys[1]].to_numpy()):
-        ctx.violation('simulation_trace', 'simulation_trace', {}, {})
+                      {'order': order, 'n': n}, {'order': order})
+    # the line visits the (time, value) pairs of the frame, in the order of
+    # the rows or in chronological order
+    tx = np.asarray(t.x, dtype=float)
+    ty = np.asarray(t.y, dtype=float)
+    hx = held[keys[0]].to_numpy()
+    hy = held[keys[1]].to_numpy()
+    chrono = np.argsort(hx, kind='stable')
+
+    def same(a, b):
+        return a.shape == b.shape and np.array_equal(a, b, equal_nan=True)
+    in_rows = same(tx, hx) and same(ty, hy)
+    in_time = same(tx, hx[chrono]) and same(ty, hy[chrono])
+    if t.mode != 'lines' or not (in_rows or in_time):
+        ctx.violation('simulation_trace', 'simulation_trace',
+                      {'order': order, 'n': n}, {'order': order})
 
 
 def residual_case(ctx, rng, idx):
